@@ -207,14 +207,18 @@ pub fn alias_twin(toks: &[T]) -> Option<Vec<T>> {
     let mut expect_leaf = true;
     let mut had_unary = false;
     let mut swapped = false;
-    for t in toks {
+    for (ti, t) in toks.iter().enumerate() {
         let mut o = t.clone();
+        // a word glued to `_` is (the base of) a compound variable, never an operator
+        if matches!(toks.get(ti + 1), Some(T::Us)) || (ti > 0 && matches!(toks[ti - 1], T::Us)) {
+            if matches!(t, T::Word(_) | T::Int(_)) { expect_leaf = false; out.push(o); continue; }
+        }
         if expect_leaf {
             match t {
                 T::Minus | T::Bang if !had_unary => { had_unary = true; if let Some(x) = swap_alias(t) { o = x; swapped = true; } }
                 T::Word(s) if s == "not" && !had_unary => { had_unary = true; o = T::Bang; swapped = true; }
-                T::LPar => { had_unary = false; }
-                T::RPar => { expect_leaf = false; }
+                T::LPar | T::LBrace | T::LBrack => { had_unary = false; }
+                T::RPar | T::RBrace | T::RBrack | T::Str(_) => { expect_leaf = false; }
                 T::Int(_) | T::Float(_) | T::Word(_) => { expect_leaf = false; }
                 _ => {}
             }
@@ -228,7 +232,7 @@ pub fn alias_twin(toks: &[T]) -> Option<Vec<T>> {
                     if let Some(x) = swap_alias(t) { o = x; swapped = true; }
                     expect_leaf = true; had_unary = false;
                 }
-                T::LPar | T::Comma => { expect_leaf = true; had_unary = false; }
+                T::LPar | T::Comma | T::LBrace | T::LBrack | T::DotDot | T::DotDotEq => { expect_leaf = true; had_unary = false; }
                 _ => {}
             }
         }
